@@ -178,11 +178,24 @@ PROPS = {
                  "Non-trivial = the definition must be refused, or has skipped fields; distinct by definition hash."),
         "jobs": [{"run": "^TestC08", "shards": 32, "timeout_quick": 600, "timeout_thorough": 3000}],
     },
+    "C17": {
+        "rule": ("sets of 2-4 instances with generated option bits and generated registrations of harness-defined marker codecs (a string-kind codec "
+                 "that prefixes a per-registration marker byte for named type MStr; a varint codec adding a per-registration offset for named type "
+                 "MInt, untagged and under the tag 'off'; BQTimestampCodec for time.Time), x a struct type placing those types as field, pointer "
+                 "target, slice element, map key, map value, inside nested structs and slices of structs, with 'off'-tagged fields and pointer "
+                 "fields, x a value. Oracle: for every instance Marshal equals, byte for byte, the reference encoder parameterised with exactly "
+                 "that instance's options and registrations (exact type + tag takes precedence, unregistered named types fall back to their "
+                 "kind), and round-trips; after a further instance registers different codecs every existing instance still produces the same "
+                 "bytes; the package-level Marshal/Unmarshal/CodecForType agree with a fresh default-configured instance and with the plain "
+                 "kind-based encoding. Values with multi-entry maps are skipped (byte-exact oracle). Non-trivial = >=2 instances whose expected "
+                 "encodings differ; distinct by case hash."),
+        "jobs": [{"run": "^TestC17", "shards": 32, "timeout_quick": 600, "timeout_thorough": 3000}],
+    },
 }
 
 # Properties not (yet) claimed, with the reason. Kept current by hand.
 NOT_APPLICABLE = {p: "check not built yet in this commit (work in progress; the technique applies, see DESIGN.md)" for p in
-                  ["C07", "C17", "C19", "C20"]}
+                  ["C07", "C19", "C20"]}
 
 # commits in /repo that add build-tag-guarded hooks
 HOOK_COMMITS = []
